@@ -3,6 +3,7 @@ package sym
 import (
 	"fmt"
 	"go/types"
+	"strings"
 
 	"gosmt/smt"
 
@@ -96,15 +97,114 @@ func registerMisc(e *Engine) {
 		in.timerBudget = in.concreteInt(a[0], "timer budget")
 		return TupleV{}
 	}
-	// contexts: deadlines and cancellation are not modelled here (no timers, no
-	// goroutines): the derived context is the parent, cancel is a no-op.
-	ctxDerive := func(in *Interp, fn *ssa.Function, a []Value) Value {
-		cancel := &FuncV{Name: "cancel", Native: func(in *Interp, args []Value) Value { return TupleV{} }}
-		return TupleV{a[0], cancel}
+	// derived contexts: a *context.cancelCtx / *context.timerCtx value with a
+	// native model attached. No goroutines or timers: a deadline "eventually
+	// passes" - Done() of a timeout context is a closed channel and from then
+	// on Err() is DeadlineExceeded, unless the parent reports an error first.
+	mkCtx := func(in *Interp, parent IfaceV, timeout bool) (Value, *ctxModel) {
+		if parent.T == nil {
+			in.throwRuntime("cannot create context from nil parent")
+		}
+		tn := "cancelCtx"
+		if timeout {
+			tn = "timerCtx"
+		}
+		t := in.namedType("context", tn)
+		l := in.newLoc(t)
+		cc := l
+		if timeout {
+			cc = l.Kids[0] // embedded cancelCtx
+		}
+		cc.Kids[0].V = parent // cancelCtx.Context
+		m := &ctxModel{parent: parent, timeout: timeout}
+		cc.Native = m
+		return IfaceV{T: types.NewPointer(t), V: l}, m
 	}
-	I["context.WithTimeout"] = ctxDerive
-	I["context.WithDeadline"] = ctxDerive
-	I["context.WithCancel"] = ctxDerive
+	ctxWith := func(timeout bool) intrinsicFn {
+		return func(in *Interp, fn *ssa.Function, a []Value) Value {
+			ctx, m := mkCtx(in, a[0].(IfaceV), timeout)
+			cancel := &FuncV{Name: "cancel", Native: func(in *Interp, args []Value) Value {
+				if !m.fired {
+					m.cancelled = true
+				}
+				return TupleV{}
+			}}
+			return TupleV{ctx, cancel}
+		}
+	}
+	I["context.WithTimeout"] = ctxWith(true)
+	I["context.WithDeadline"] = ctxWith(true)
+	I["context.WithCancel"] = ctxWith(false)
+	ctxOf := func(v Value) *ctxModel {
+		l, _ := v.(*Loc)
+		if l == nil {
+			panic(unsupported{"context method on nil"})
+		}
+		m, ok := l.Native.(*ctxModel)
+		if !ok {
+			panic(unsupported{"context value not created by the context model"})
+		}
+		return m
+	}
+	parentErr := func(in *Interp, m *ctxModel) IfaceV {
+		return in.callMethod(m.parent, "Err").(IfaceV)
+	}
+	I["(*context.cancelCtx).Done"] = func(in *Interp, fn *ssa.Function, a []Value) Value {
+		m := ctxOf(a[0])
+		ct := types.NewChan(types.RecvOnly, types.NewStruct(nil, nil))
+		in.nextID++
+		ch := &ChanV{T: ct, ID: in.nextID}
+		if m.cancelled || m.fired || parentErr(in, m).T != nil {
+			ch.Closed = true
+		} else if m.timeout {
+			// the deadline eventually passes
+			m.fired = true
+			ch.Closed = true
+		}
+		return ch
+	}
+	I["(*context.cancelCtx).Err"] = func(in *Interp, fn *ssa.Function, a []Value) Value {
+		m := ctxOf(a[0])
+		if m.cancelled {
+			return in.globalVar("context", "Canceled")
+		}
+		if pe := parentErr(in, m); pe.T != nil {
+			return pe
+		}
+		if m.fired {
+			return in.globalVar("context", "DeadlineExceeded")
+		}
+		return nilError()
+	}
+	I["(*context.timerCtx).Deadline"] = func(in *Interp, fn *ssa.Function, a []Value) Value {
+		return TupleV{in.mkTime(in.ctx.BV(0, 64)), in.ctx.False}
+	}
+	// (*http.Client).Do with a harness transport: c.Transport.RoundTrip(req);
+	// a transport error is wrapped in *url.Error as the real client does.
+	I["(*net/http.Client).Do"] = func(in *Interp, fn *ssa.Function, a []Value) Value {
+		c := a[0].(*Loc)
+		tr := in.load(in.structField(c, "Transport")).(IfaceV)
+		if tr.T == nil {
+			panic(unsupported{"http.Client.Do without a harness transport (real HTTP is outside the engine)"})
+		}
+		req := a[1].(*Loc)
+		res := in.callMethod(tr, "RoundTrip", req).(TupleV)
+		if err := res[1].(IfaceV); err.T != nil {
+			t := in.namedType("net/url", "Error")
+			l := in.newLoc(t)
+			method := "Get"
+			if ms, ok := in.load(in.structField(req, "Method")).(StrV); ok {
+				if cs, ok := ms.Concrete(); ok && cs != "" {
+					method = cs[:1] + strings.ToLower(cs[1:])
+				}
+			}
+			in.structField(l, "Op").V = StrV{S: method}
+			in.structField(l, "URL").V = StrV{S: "<url>"}
+			in.structField(l, "Err").V = err
+			return TupleV{(*Loc)(nil), IfaceV{T: types.NewPointer(t), V: l}}
+		}
+		return res
+	}
 
 	// sort.Slice / SliceStable: the insertion sort the standard library uses
 	// for short slices (n <= 12), driven by the caller's less function.
@@ -155,35 +255,59 @@ func registerMisc(e *Engine) {
 	// value; Unmarshal of such a blob copies it back when the types agree.
 	I["encoding/json.Marshal"] = func(in *Interp, fn *ssa.Function, a []Value) Value {
 		v := a[0].(IfaceV)
-		blob := in.bytesToSlice([]*smt.Term{in.ctx.BV('?', 8)})
-		blob.Arr.Native = &jsonBlob{val: in.deepCopy(v).(IfaceV)}
-		return TupleV{blob, nilError()}
+		in.jsonBlobs = append(in.jsonBlobs, in.deepCopy(v).(IfaceV))
+		id := len(in.jsonBlobs) - 1
+		raw := []byte{0, 'J', 'S', 'O', 'N', byte(id >> 8), byte(id), 0}
+		bs := make([]*smt.Term, len(raw))
+		for i, b := range raw {
+			bs[i] = in.ctx.BV(uint64(b), 8)
+		}
+		return TupleV{in.bytesToSlice(bs), nilError()}
 	}
 	I["encoding/json.Unmarshal"] = func(in *Interp, fn *ssa.Function, a []Value) Value {
 		b := a[0].(SliceV)
 		dst := a[1].(IfaceV)
-		var jb *jsonBlob
-		if b.Arr != nil {
-			jb, _ = b.Arr.Native.(*jsonBlob)
+		id := -1
+		if b.Len == 8 {
+			bs := in.sliceBytes(b)
+			ok := true
+			for _, t := range bs {
+				if !t.IsConst() {
+					ok = false
+				}
+			}
+			if ok && bs[0].Val == 0 && bs[1].Val == 'J' && bs[2].Val == 'S' && bs[3].Val == 'O' && bs[4].Val == 'N' {
+				id = int(bs[5].Val)<<8 | int(bs[6].Val)
+			}
 		}
-		if jb == nil {
-			panic(unsupported{"json.Unmarshal of bytes not produced by json.Marshal in this run"})
+		if id < 0 || id >= len(in.jsonBlobs) {
+			// bytes that no json.Marshal of this run produced: a syntax error
+			return in.newError("invalid character looking for beginning of value")
 		}
+		val := in.jsonBlobs[id]
 		pt, ok := under(dst.T).(*types.Pointer)
 		if !ok {
 			return in.newError("json: Unmarshal(non-pointer)")
 		}
-		if jb.val.T == nil {
+		if val.T == nil {
 			return nilError()
 		}
-		if !types.Identical(pt.Elem(), jb.val.T) {
+		src := val.T
+		if sp, ok := under(src).(*types.Pointer); ok && !types.Identical(src, pt.Elem()) {
+			// marshalled through a pointer: same encoding as the pointee
+			if l, ok := val.V.(*Loc); ok && l != nil {
+				val = IfaceV{T: sp.Elem(), V: in.load(l)}
+				src = sp.Elem()
+			}
+		}
+		if !types.Identical(pt.Elem(), src) {
 			if _, isI := under(pt.Elem()).(*types.Interface); isI {
-				in.store(dst.V, jb.val)
+				in.store(dst.V, val)
 				return nilError()
 			}
-			panic(unsupported{fmt.Sprintf("json.Unmarshal into %v of a blob carrying %v", pt.Elem(), jb.val.T)})
+			panic(unsupported{fmt.Sprintf("json.Unmarshal into %v of a blob carrying %v", pt.Elem(), src)})
 		}
-		in.store(dst.V, in.deepCopy(jb.val).(IfaceV).V)
+		in.store(dst.V, in.deepCopy(val).(IfaceV).V)
 		return nilError()
 	}
 	I["os.Getenv"] = func(in *Interp, fn *ssa.Function, a []Value) Value { return StrV{} }
@@ -221,7 +345,12 @@ func (in *Interp) errHasErrno(err IfaceV, code int, depth int) bool {
 	return false
 }
 
-type jsonBlob struct{ val IfaceV }
+type ctxModel struct {
+	parent    IfaceV
+	timeout   bool
+	cancelled bool
+	fired     bool
+}
 
 // deepCopy copies slices (fresh backing arrays) so that a marshalled value
 // does not alias the original.
